@@ -343,6 +343,7 @@ def main(argv: list[str]) -> int:
     for c in fcases:
         nst = len(FG.C.states_of(c))
         fwork.append((c, "back" if nst >= 2 else "forward"))
+        fwork.append((c, "cache"))        # the daemon started from a fine-grained cache written by a batch build of step 1
         if tier != "quick" and nst >= 2:
             fwork.append((c, "reverse"))
     fresults = []
@@ -352,7 +353,7 @@ def main(argv: list[str]) -> int:
     fseen = set()
     for r in fresults:
         if r["violation"]:
-            key = "fg:%s::%s:%s:%s" % (r["file"], r["name"], json.dumps(r.get("at")), r.get("digest"))
+            key = "fg%s:%s::%s:%s:%s" % ("-cache" if r["order"] == "cache" else "", r["file"], r["name"], json.dumps(r.get("at")), r.get("digest"))
             if key in fseen:
                 continue
             fseen.add(key)
